@@ -1,0 +1,18 @@
+// SPDX-FileCopyrightText: 2022 Kalle Fagerberg
+//
+// SPDX-License-Identifier: MIT
+
+//go:build !verif
+
+package sync2
+
+import "sync"
+
+// Verification hooks (build tag "verif"). Without the tag they are empty and
+// inlined away.
+
+func verifYield(string)                       {}
+func verifLock(*sync.Mutex, string)           {}
+func verifUnlocked(*sync.Mutex)               {}
+func verifRWLock(*sync.RWMutex, bool, string) {}
+func verifRWUnlocked(*sync.RWMutex, bool)     {}
